@@ -254,7 +254,7 @@ def run_sample(ctx, kind, dlen, rlen, oplen, exclude):
 
 def cubes_sample(tier, seed):
     out = []
-    L = 4 if tier == 'quick' else 6
+    L = 4 if tier == 'quick' else 5
     for kind in KINDS:
         for dl in range(0, L + 1):
             if kind == 'plain-nodesc' and dl:
@@ -282,7 +282,7 @@ def cube_weight(h, p):
 
 
 def evidence(tier):
-    L = 4 if tier == 'quick' else 6
+    L = 4 if tier == 'quick' else 5
     return {
         'bounds': {'sample': 'description and deprecated_reason of exactly '
                    '0..%d characters over %r, optionally with an %d-char '
